@@ -23,6 +23,10 @@ SYM = {"value": "v", "self._suspend_thresh": "s", "self._resume_thresh": "r", "s
 
 
 def ret_expr(f):
+    """what the predicate returns, as one expression (temporaries substituted, guard clauses folded into conditionals)"""
+    e = q.return_expression(f.node)
+    if e is not None:
+        return e
     rets = [s for s in f.node.body if isinstance(s, ast.Return)]
     return rets[0].value if len(rets) == 1 else None
 
@@ -140,10 +144,29 @@ def run(ctx):
     # boolean suspenders
     for cls, sus, res in (("SuspendBoolHigh", "bool(value)", "not bool(value)"), ("SuspendBoolLow", "not bool(value)", "bool(value)")):
         fs, fr = method(repo, cls, "_should_suspend"), method(repo, cls, "_should_resume")
-        ok = fs is not None and fr is not None and A.norm(ret_expr(fs)) == sus and A.norm(ret_expr(fr)) == res
+        ok = fs is not None and fr is not None
+        if ok:
+            # decided on the truth table over the truthiness of `value`, however the predicate is written
+            want_s = q.truth_table(ast.parse(sus, mode="eval").body, ["value"])
+            want_r = q.truth_table(ast.parse(res, mode="eval").body, ["value"])
+            ok = q.truth_table(ret_expr(fs), ["value"]) == want_s and q.truth_table(ret_expr(fr), ["value"]) == want_r
         ctx.ob("C30.D1-conditions-match-documentation", f"{SU}:{cls} truth table", ok, "" if ok else "boolean conditions changed", where=where(fs, fs.node) if fs else "")
     fs, fr = method(repo, "SuspendWhenChanged", "_should_suspend"), method(repo, "SuspendWhenChanged", "_should_resume")
-    ok = A.norm(ret_expr(fs)) == "value != self.expected_value" and A.norm(ret_expr(fr)) == "self.allow_resume and value == self.expected_value"
+    # truth table over (allow_resume, value == expected): `!=` is read as the negation of `==` of the same operands
+    atoms = ["self.allow_resume", "value == self.expected_value"]
+
+    class _NeToNotEq(ast.NodeTransformer):
+        def visit_Compare(self, n):
+            if len(n.ops) == 1 and isinstance(n.ops[0], ast.NotEq):
+                return ast.UnaryOp(op=ast.Not(), operand=ast.Compare(left=n.left, ops=[ast.Eq()], comparators=n.comparators))
+            return n
+    import copy as _copy
+    es, er = ret_expr(fs), ret_expr(fr)
+    ok = es is not None and er is not None
+    if ok:
+        ts = q.truth_table(ast.fix_missing_locations(_NeToNotEq().visit(_copy.deepcopy(es))), atoms)
+        tr = q.truth_table(ast.fix_missing_locations(_NeToNotEq().visit(_copy.deepcopy(er))), atoms)
+        ok = all(ts[(a, eq)] is (not eq) and tr[(a, eq)] is (a and eq) for a in (True, False) for eq in (True, False))
     ctx.ob("C30.D1-conditions-match-documentation", f"{SU}:SuspendWhenChanged truth table", ok, "" if ok else "changed-value conditions changed", where=where(fs, fs.node))
     call = tripped_latch(ctx, repo)
     # 'grants resumption only when its documented resume condition holds': a release belongs to the trip it ends.  The release
